@@ -214,8 +214,14 @@ func c05Classes(c c05Case, evs []c05Ev) (classes []string, nontriv bool) {
 		if e.Op == "close-ret" {
 			continue
 		}
-		if e.DLDriven {
+		if e.DLDriven && e.Op == "read" {
 			set["timeout:deadline-expired(virtual clock)"] = true
+		}
+		if e.DLDriven && e.Op == "write" {
+			set["timeout:write-deadline-expired(virtual clock)"] = true
+		}
+		if e.Op == "write" && e.N > 0 && e.Off == 0 && e.VT >= 30*time.Second {
+			set["stream:first-reply-after-30s-delivered"] = true
 		}
 		if e.Op == "read" && e.N > 0 && e.VT >= 30*time.Second {
 			set["stream:still-relaying-after-30s"] = true
@@ -514,17 +520,64 @@ func c05JudgeStreams(evs []c05Ev, done [2]int) (viols []c05Viol, accepted [2]int
 			continue
 		}
 		if lastRelay != nil && e.DLSetSeq < lastRelay.Seq {
-			add("premature-timeout:deadline-not-refreshed", "%s.Read timed out at virtual time %v on a read deadline that had been set at %v (call seq%d), before the tunnel relayed its last chunk at %v (%s): relayed traffic did not push this connection's read deadline forward, so the idle direction tears down a tunnel that carries a live stream although neither side failed or stalled",
-				c05ConnName[e.Conn], e.VT, e.DLSetVT, e.DLSetSeq, lastRelay.VT, c05Describe(*lastRelay))
+			what := "Read"
+			if e.Op == "write" {
+				what = "Write"
+			}
+			add("premature-timeout:deadline-not-refreshed", "%s.%s timed out at virtual time %v on a %s deadline that had been set at %v (call seq%d), before the tunnel relayed its last chunk at %v (%s): relayed traffic did not push this connection's %s deadline forward (every relayed chunk has to move both deadlines of both connections), so a tunnel that is alive is torn down although neither side failed or stalled",
+				c05ConnName[e.Conn], what, e.VT, strings.ToLower(what), e.DLSetVT, e.DLSetSeq, lastRelay.VT, c05Describe(*lastRelay), strings.ToLower(what))
 			break
 		}
 		if e.DLVal-e.DLSetVT < minTimeout-time.Second {
-			add("premature-timeout:deadline-too-short", "%s.Read timed out at virtual time %v on a read deadline set at %v that lay only %v ahead (the relay's time-outs are %v / %v)",
+			add("premature-timeout:deadline-too-short", "%s timed out at virtual time %v on a deadline set at %v that lay only %v ahead (the relay's time-outs are %v / %v)",
 				c05ConnName[e.Conn], e.VT, e.DLSetVT, e.DLVal-e.DLSetVT, proxyInitTimeout, proxyStallTimeout)
 			break
 		}
 	}
 	return
+}
+
+// c05Epochs performs the statistics epoch roll-overs of one case and keeps the books: what the
+// per-epoch counters showed right before each reset is accumulated, so that the sum over all epochs
+// can be compared with what was delivered; the session gauge is not an epoch counter and has to read
+// the same before and after a reset (`want` while the tunnel is open).
+type c05Epochs struct {
+	n        int
+	acc      c05Counters
+	gaugeBad string
+}
+
+func (ep *c05Epochs) roll(wantGauge int64) {
+	ps := getProxyStats()
+	cur := c05Snap()
+	ep.acc.psUp += cur.psUp
+	ep.acc.psDown += cur.psDown
+	ep.acc.psCompUp += cur.psCompUp
+	ep.acc.psCompDown += cur.psCompDown
+	ep.acc.stUp += cur.stUp
+	ep.acc.stDown += cur.stDown
+	if ep.n%2 == 0 {
+		ps.PrintAndReset(log.New(io.Discard, "", 0))
+	} else {
+		ps.Reset()
+	}
+	Stat().Reset()
+	after := atomic.LoadInt64(&ps.sessionsProxying)
+	if ep.gaugeBad == "" && (cur.sessions != wantGauge || after != wantGauge) {
+		ep.gaugeBad = fmt.Sprintf("with this tunnel open sessionsProxying has to read %d: it read %d right before and %d right after statistics epoch roll-over #%d (PrintAndReset / Reset must not touch the gauge of open sessions)", wantGauge, cur.sessions, after, ep.n+1)
+	}
+	ep.n++
+}
+
+// adjust adds what the closed epochs had counted to a final snapshot.
+func (ep *c05Epochs) adjust(post c05Counters) c05Counters {
+	post.psUp += ep.acc.psUp
+	post.psDown += ep.acc.psDown
+	post.psCompUp += ep.acc.psCompUp
+	post.psCompDown += ep.acc.psCompDown
+	post.stUp += ep.acc.stUp
+	post.stDown += ep.acc.stDown
+	return post
 }
 
 func c05CheckCounts(accepted [2]int64, tsUp, tsDown int64, pre, post c05Counters) (string, string) {
@@ -580,6 +633,8 @@ func c05RunPipes(c c05Case) (out c05Out) {
 	if c05WGReadable {
 		w.wgN = func() int { n, _ := c05WGCounter(&wg); return n }
 	}
+	var ep c05Epochs
+	w.onEpoch = func() { ep.roll(pre.sessions) } // (no Proxy here: the gauge just has to stay what it was)
 	run := func(d int, src, dst c05View, tag string) {
 		var pan any
 		defer func() { w.finish(d, pan) }()
@@ -708,7 +763,13 @@ func c05RunPipes(c c05Case) (out c05Out) {
 			out.viols = append(out.viols, c05Viol{"teardown:connection-left-open", fmt.Sprintf("the %s connection was never closed", c05ConnName[cn.idx])})
 		}
 	}
-	post := c05Snap()
+	post := ep.adjust(c05Snap())
+	if ep.gaugeBad != "" {
+		out.viols = append(out.viols, c05Viol{"gauge:changed-by-epoch-reset", ep.gaugeBad})
+	}
+	if ep.n > 0 {
+		out.classes = append(out.classes, "stats:epoch-rolled-over-during-tunnel")
+	}
 	if k, m := c05CheckCounts(accepted, atomic.LoadInt64(&stats.BytesUp), atomic.LoadInt64(&stats.BytesDown), pre, post); k != "" {
 		out.viols = append(out.viols, c05Viol{k, m})
 	}
@@ -760,6 +821,8 @@ func (f c05Fault) String() string {
 		return fmt.Sprintf("%s: %s alone after %d chunks", c05DirName[f.Dir], f.Err, f.Pos)
 	case "read-zero":
 		return fmt.Sprintf("%s: zero-length read (0, nil) before chunk %d", c05DirName[f.Dir], f.Pos)
+	case "read-epoch":
+		return fmt.Sprintf("%s: statistics epoch rolls over right before chunk %d", c05DirName[f.Dir], f.Pos)
 	case "read-over":
 		e := f.Err
 		if e == "" {
@@ -792,6 +855,9 @@ func c05AllFaults() []c05Fault {
 		}
 		for pos := 0; pos <= 6; pos++ {
 			fs = append(fs, c05Fault{Dir: d, Kind: "read-zero", Pos: pos})
+		}
+		for pos := 0; pos < 6; pos++ {
+			fs = append(fs, c05Fault{Dir: d, Kind: "read-epoch", Pos: pos})
 		}
 		for _, pos := range []int{0, 3, 5} {
 			for _, over := range []int{1, 32768, -1} {
@@ -892,6 +958,12 @@ func c05Apply(c *c05Case, f c05Fault) {
 			r = append(r, c05Step{N: 0})
 			s.Reads = append(r, s.Reads[i:]...)
 		}
+	case "read-epoch":
+		s := c.script(f.Dir)
+		if i := c05ChunkIdx(s, f.Pos); i >= 0 && i < len(s.Reads) {
+			s.Reads = append([]c05Step(nil), s.Reads...)
+			s.Reads[i].Epoch = true
+		}
 	case "read-over":
 		s := c.script(f.Dir)
 		if i := c05ChunkIdx(s, f.Pos); i >= 0 && i < len(s.Reads) && !c05HasReadFault(s, i+1) {
@@ -951,13 +1023,13 @@ func c05Replay(t *testing.T, rec *vh.Rec) bool {
 
 // Every single fault, at every position, under every enumeration schedule.
 func TestVerif_C05_single(t *testing.T) {
-	rec := vh.NewRec("C05", "single", "exhaustive: the two halfPipes wired as in Proxy over two scripted connections; base script of 6 chunks per direction (1 B, 700 B, 32767, 32768, 32769, 65536 / 32769, 3, 65536, 1500, 32768, 32767 = 8 Reads each with the 32 KiB buffer) x every single fault {EOF, ECONNRESET, EPIPE, timeout, EIO alone before chunk 0..6; the same five returned together with chunk 0..5; a zero-length read (0, nil) before chunk 0..6; chunk 0 / 3 / 5 replaced by a full buffer whose Read reports len+1 / 2*len / MaxInt32 bytes with nil error, EOF or reset (a source that breaks the Read contract; the relay must not crash); Write 0 / 3 / 7 accepting 0 / 1 / len-1 bytes with nil error and every later Write returning (0, nil) (a destination that makes no progress without ever failing); on each of the 8 Writes: short write accepting 0 / 1 / len-1 with nil error, errors with 0 / 300 / len-1 bytes accepted; SetDeadline failing at call 0..9 on source or destination, as seen by either direction; Close failing, or taking 2 ms (lingering), on either connection} x base end {both peers silent (stall time-out), both EOF} x 6 schedules (alternating with 0-3 calls of phase shift, up runs first, down runs first); plus 144 one-directional streams in virtual time: {down, up} relays 8 chunks, the first after {0, 20 s}, then every {20 s, 100 s, 130 s (a real stall)}, ends with EOF, while the other side is {silent from the start, sends one request at t=0 and waits} x the 6 schedules - the virtual clock advances only when every direction is blocked in a Read, to the next chunk arrival or read-deadline expiry; non-trivial = an injected fault other than a plain EOF alone was hit; distinct by case")
+	rec := vh.NewRec("C05", "single", "exhaustive: the two halfPipes wired as in Proxy over two scripted connections; base script of 6 chunks per direction (1 B, 700 B, 32767, 32768, 32769, 65536 / 32769, 3, 65536, 1500, 32768, 32767 = 8 Reads each with the 32 KiB buffer) x every single fault {EOF, ECONNRESET, EPIPE, timeout, EIO alone before chunk 0..6; the same five returned together with chunk 0..5; a zero-length read (0, nil) before chunk 0..6; a statistics epoch roll-over (ProxyStats.PrintAndReset / Reset + Stats.Reset) right before chunk 0..5, the per-epoch byte counters summed over the epochs must equal what was delivered; chunk 0 / 3 / 5 replaced by a full buffer whose Read reports len+1 / 2*len / MaxInt32 bytes with nil error, EOF or reset (a source that breaks the Read contract; the relay must not crash); Write 0 / 3 / 7 accepting 0 / 1 / len-1 bytes with nil error and every later Write returning (0, nil) (a destination that makes no progress without ever failing); on each of the 8 Writes: short write accepting 0 / 1 / len-1 with nil error, errors with 0 / 300 / len-1 bytes accepted; SetDeadline failing at call 0..9 on source or destination, as seen by either direction; Close failing, or taking 2 ms (lingering), on either connection} x base end {both peers silent (stall time-out), both EOF} x 6 schedules (alternating with 0-3 calls of phase shift, up runs first, down runs first); plus 48 request / late-reply histories (request at t=0, the first chunk of the other direction after 31 s / 125 s of silence, the requesting direction idle or sending a chunk every 20 s) and 144 one-directional streams in virtual time: {down, up} relays 8 chunks, the first after {0, 20 s}, then every {20 s, 100 s, 130 s (a real stall)}, ends with EOF, while the other side is {silent from the start, sends one request at t=0 and waits} x the 6 schedules - the virtual clock advances only when every direction is blocked in a Read, to the next chunk arrival or read-deadline expiry; non-trivial = an injected fault other than a plain EOF alone was hit; distinct by case")
 	defer rec.Flush()
 	rec.Require("read:data+eof", "read:data+reset", "read:data+timeout", "read:reset", "read:epipe", "read:timeout", "read:eof", "read:zero-length", "close:slow",
-		"read:reports-more-than-buffer", "read:reports-more-than-buffer+err", "write:(0,nil)",
+		"read:reports-more-than-buffer", "read:reports-more-than-buffer+err", "write:(0,nil)", "stats:epoch-rolled-over-during-tunnel",
 		"write:short", "write:err+partial", "write:err", "write:epipe", "write:timeout", "setdl:first", "setdl:nth", "close:err",
 		"stopped-by-close:at-read", "stopped-by-close:at-write", "stopped-by-close:at-setdl", "chunk:1B", "chunk:=32KiB", "chunk:>32KiB(split)",
-		"timeout:deadline-expired(virtual clock)", "stream:still-relaying-after-30s", "stream:still-relaying-after-2min")
+		"timeout:deadline-expired(virtual clock)", "stream:still-relaying-after-30s", "stream:still-relaying-after-2min", "stream:first-reply-after-30s-delivered")
 	c05QuietStats(t)
 	if c05Replay(t, rec) {
 		return
@@ -1023,6 +1095,27 @@ func c05StreamCases() []c05Case {
 						*c.script(1 - dir) = idle
 						out = append(out, c)
 					}
+				}
+			}
+		}
+	}
+	// request at t=0, the reply only after 31 s / 125 s of silence in that direction, while the
+	// requesting direction stays idle or busy (a chunk every 20 s)
+	for _, reply := range []int{c05Down, c05Up} {
+		for _, delay := range []int64{31000, 125000} {
+			for _, other := range []string{"idle", "busy"} {
+				for _, sc := range c05Scheds {
+					req := c05Script{Reads: []c05Step{{N: 300}}, End: "hold"}
+					if other == "busy" {
+						for i := 0; i < 8; i++ {
+							req.Reads = append(req.Reads, c05Step{N: 1448, PauseMs: 20000})
+						}
+					}
+					rep := c05Script{End: "eof", Reads: []c05Step{{N: 5000, PauseMs: delay}, {N: 40000, PauseMs: 1000}, {N: 1, PauseMs: 1000}}}
+					c := c05Case{Sched: sc, Label: fmt.Sprintf("request at t=0, first %s chunk after %d s of silence in that direction, the requesting direction stays %s", c05DirName[reply], delay/1000, other)}
+					*c.script(reply) = rep
+					*c.script(1 - reply) = req
+					out = append(out, c)
 				}
 			}
 		}
@@ -1097,6 +1190,9 @@ func c05GenScript(rt *rapid.T, name string, dirs []int) c05Script {
 		if st.N > 0 && rapid.IntRange(0, 39).Draw(rt, name+".over") == 0 {
 			st.N = 32768
 			st.Over = rapid.SampledFrom([]int{1, 2, 32768, 100000, -1}).Draw(rt, name+".overby")
+		}
+		if rapid.IntRange(0, 9).Draw(rt, name+".epoch") == 0 {
+			st.Epoch = true
 		}
 		if rapid.IntRange(0, 3).Draw(rt, name+".paused") == 0 {
 			st.PauseMs = rapid.SampledFrom([]int64{1000, 10000, 29000, 31000, 60000, 119000, 121000, 300000}).Draw(rt, name+".pause")
